@@ -18,6 +18,7 @@ def gen(rng):
     return p
 
 
+setup = pc.setup
 execute = pc.execute
 
 
